@@ -184,6 +184,9 @@ def check(case):
 def gen(rng):
     n_inst = rng.randint(0, 5)
     instances = [rng.randrange(len(CATEGORIES)) for _ in range(n_inst)]
+    if n_inst >= 2 and rng.random() < 0.4:
+        # two instances of one category the label table does not know (each annotation still carries its OWN attributes and name)
+        instances[0] = instances[1] = CATEGORIES.index(rng.choice(["movable_object.barrier", "human.pedestrian.adult"]))
     samples = []
     t = 1_600_000_000_000_000
     poses = {j: [rng.uniform(-30, 30), rng.uniform(-30, 30), rng.uniform(-1, 1), rng.uniform(-3, 3)] for j in range(n_inst)}
